@@ -881,10 +881,12 @@ class SimpleShape(DefinedShape):
             if not self.contains_point(point, boundary):
                 return False
         inters = jordan & self.jordans[0]
-        uvals = {}
+        # The end points of every segment count as well, so that a segment
+        # without any crossing is still tested at its middle point
+        uvals = {
+            a: {Fraction(0), Fraction(1)} for a in range(len(jordan.segments))
+        }
         for a, _, u, _ in inters:
-            if a not in uvals:
-                uvals[a] = set()
             uvals[a].add(u)
         for a, us in uvals.items():
             us = sorted(us)
